@@ -127,7 +127,15 @@ func (b *Batch) Get(key []byte) ([]byte, error) {
 	if pos == nil {
 		return nil, ErrKeyNotFound
 	}
-	value, err := b.db.activeFile.ReadRecordValue(pos)
+	// 索引指向的记录可能位于旧数据文件
+	dataFile := b.db.activeFile
+	if pos.Fid != dataFile.ID {
+		dataFile = b.db.olderFiles[pos.Fid]
+	}
+	if dataFile == nil {
+		return nil, ErrDataFileNotFound
+	}
+	value, err := dataFile.ReadRecordValue(pos)
 	if err != nil {
 		return nil, err
 	}
